@@ -630,6 +630,236 @@ done:
   server_down();
 }
 
+/* ------------------------------------------------------------------ rpx */
+/* Endpoint A is client and server towards the same peer B under one security context: A's
+ * recipient context is armed by B's requests and is also the one B's responses (Observe
+ * notifications carry a Partial IV of their own) are checked against.
+ *
+ *   rpx <variant> <Wcfg> <b12> { <op> }*
+ *     g|e|x|f|P|K|O<hexseq>  request from B to A (as in rpd)
+ *     q<hexseq>   A sends GET /o with Observe:0 through coap_send(); B (a server with an observable
+ *                 resource) answers; its answer carries the Partial IV <hexseq> and is delivered
+ *     N<hexseq>   B notifies its observers (coap_resource_notify_observers + coap_check_notify),
+ *                 Partial IV <hexseq>; a repeated token re-delivers the same datagram
+ *     T<hexseq>   such a notification with the last byte changed
+ *     R<hexseq>   made-up response: A's outstanding token, claimed Partial IV, random ciphertext
+ *     Z<hexseq>   made-up response with a token A never used
+ *     W<hexseq>   made-up response with A's outstanding token and no Partial IV (it is bound to
+ *                 the request's nonce; <hexseq> only varies the bytes)
+ *   -> per op  <verdict>,<last_seq>,<window>,<initial>   verdict for requests as in rpd; for
+ *      responses A = A's response handler ran, X = it did not
+ */
+static int a_resp_calls;
+static coap_response_t hnd_resp_a(coap_session_t *s, const coap_pdu_t *sent, const coap_pdu_t *rcv,
+                                  const coap_mid_t mid) {
+  (void)s; (void)sent; (void)rcv; (void)mid;
+  a_resp_calls++;
+  return COAP_RESPONSE_OK;
+}
+
+static void hnd_obs(coap_resource_t *r, coap_session_t *s, const coap_pdu_t *req,
+                    const coap_string_t *q, coap_pdu_t *resp) {
+  (void)r; (void)s; (void)req; (void)q;
+  coap_pdu_set_code(resp, COAP_RESPONSE_CODE_CONTENT);
+  coap_add_data(resp, 1, (const uint8_t *)"x");
+}
+
+static coap_session_t *make_in_session(coap_context_t *ctx, coap_endpoint_t **epp, uint16_t peer_port) {
+  coap_address_t addr, peer;
+  coap_packet_t pkt;
+  coap_tick_t now;
+  coap_session_t *sess;
+  loop_addr(&addr, 0);
+  *epp = coap_new_endpoint(ctx, &addr, COAP_PROTO_UDP);
+  if (!*epp) return NULL;
+  loop_addr(&peer, peer_port);
+  memset(&pkt, 0, sizeof(pkt));
+  coap_address_copy(&pkt.addr_info.remote, &peer);
+  coap_address_copy(&pkt.addr_info.local, &(*epp)->bind_addr);
+  coap_ticks(&now);
+  coap_lock_lock(ctx, return NULL);
+  sess = coap_endpoint_get_session(*epp, &pkt, now);
+  if (sess) coap_session_reference_lkd(sess);
+  coap_lock_unlock(ctx);
+  return sess;
+}
+
+static void cmd_rpx(void) {
+  client_t a = {0}, b = {0};
+  coap_context_t *bsrv = NULL;
+  coap_session_t *a_in = NULL, *b_in = NULL;
+  coap_endpoint_t *epa = NULL, *epb = NULL;
+  coap_resource_t *res, *res_o = NULL;
+  oscore_recipient_ctx_t *rc;
+  char extra[128];
+  uint8_t tok[8];
+  size_t tok_len = 0;
+  int b12, nq = 0;
+  if (vntok < 4) { printf("BAD-CASE\n"); return; }
+  b12 = atoi(vtok[3]);
+  snprintf(extra, sizeof(extra), "replay_window,integer,%s\nrfc8613_b_1_2,bool,%s\n", vtok[2],
+           b12 ? "true" : "false");
+  /* A: sender 01, recipient 02 (client session) + endpoint + resource r */
+  {
+    coap_oscore_conf_t *conf;
+    coap_address_t srv;
+    a.ctx = coap_new_context(NULL);
+    if (!a.ctx) { printf("SETUP-FAILED\n"); goto done; }
+    coap_context_set_block_mode(a.ctx, COAP_BLOCK_USE_LIBCOAP);
+    conf = make_conf(SECRET_A, "01", "02", extra, NULL, NULL, 0);
+    loop_addr(&srv, 5683);
+    a.sess = conf ? coap_new_client_session_oscore(a.ctx, NULL, &srv, COAP_PROTO_UDP, conf) : NULL;
+  }
+  if (!a.sess || !client_up(&b, SECRET_A, "", NULL, 0)) { printf("SETUP-FAILED\n"); goto done; }
+  rc = a.sess->recipient_ctx;
+  coap_register_response_handler(a.ctx, hnd_resp_a);
+  res = coap_resource_init(coap_make_str_const("r"), 0);
+  coap_register_request_handler(res, COAP_REQUEST_GET, hnd_get);
+  coap_add_resource(a.ctx, res);
+  a_in = make_in_session(a.ctx, &epa, 40001);
+  /* B as a server: sender 02, recipient 01, observable resource o, no B.1.2 */
+  bsrv = coap_new_context(NULL);
+  if (bsrv) {
+    coap_oscore_conf_t *conf = make_conf(SECRET_A, "02", "01", "rfc8613_b_1_2,bool,false\n", NULL, NULL, 0);
+    if (!conf || !coap_context_oscore_server(bsrv, conf)) { printf("SETUP-FAILED\n"); goto done; }
+    res_o = coap_resource_init(coap_make_str_const("o"), COAP_RESOURCE_FLAGS_NOTIFY_NON_ALWAYS);   /* no CON notifications: a repeated CON is dropped by the message layer (same MID) before the application sees it */
+    coap_register_request_handler(res_o, COAP_REQUEST_GET, hnd_obs);
+    coap_resource_set_get_observable(res_o, 1);
+    coap_add_resource(bsrv, res_o);
+    b_in = make_in_session(bsrv, &epb, 40002);
+  }
+  if (!a_in || !b_in) { printf("SETUP-FAILED\n"); goto done; }
+  handler_calls = 0;
+  a_resp_calls = 0;
+  for (int i = 4; i < vntok; i++) {
+    char kind = vtok[i][0];
+    uint64_t seq = strtoull(vtok[i] + 1, NULL, 16);
+    uint8_t dg[512];
+    size_t n = 0;
+    char verdict[16] = "-";
+    int before = handler_calls, rbefore = a_resp_calls, prev = -1, is_resp = 0;
+    for (int j = 4; j < i && j - 4 < MAXMSG; j++)
+      if (!strcmp(vtok[j], vtok[i]) && msg_len[j - 4] && kind == 'N') { prev = j - 4; break; }
+    if (i - 4 < MAXMSG) msg_len[i - 4] = 0;
+    ncap = 0;
+    if (strchr("gexfPKO", kind)) {
+      uint8_t echo[8];
+      uint64_t gen_seq = seq;
+      memcpy(echo, rc->echo_value, 8);
+      if (kind == 'x') echo[0] ^= 0x5a;
+      if (kind == 'P') gen_seq = (seq >= OSCORE_SEQ_MAX - 2) ? seq - 2 : (seq ^ 1);
+      client_sender(&b)->seq = gen_seq;
+      n = client_protect(&b, 0, (unsigned)(i * 7 + 1), (kind == 'e' || kind == 'x') ? echo : NULL, 8,
+                         dg, sizeof(dg));
+      if (n && kind != 'g' && kind != 'e' && kind != 'x') {
+        size_t vl;
+        uint8_t *ov = find_oscore_opt(dg, n, &vl);
+        int pl = seq_len(seq);
+        if (kind == 'f') dg[n - 1] ^= 0x01;
+        else if (!ov || vl < 2) n = 0;
+        else if (kind == 'K') ov[vl - 1] ^= 0x55;
+        else if (kind == 'O') ov[0] |= 0x40;
+        else if ((ov[0] & 7) != pl) n = 0;
+        else for (int k = 0; k < pl; k++) ov[1 + k] = (uint8_t)(seq >> (8 * (pl - 1 - k)));
+      }
+      if (!n) { printf("%sNOGEN", i > 4 ? " " : ""); continue; }
+      coap_lock_lock(a.ctx, goto done);
+      coap_handle_dgram(a.ctx, a_in, dg, n);
+      coap_lock_unlock(a.ctx);
+      classify(verdict, sizeof(verdict), before);
+    } else if (kind == 'q') {
+      /* A registers as an observer of B's /o; B's answer carries the Partial IV <seq> */
+      coap_pdu_t *pdu = coap_new_pdu(COAP_MESSAGE_NON, COAP_REQUEST_CODE_GET, a.sess);
+      uint8_t t[2] = { 0x51, (uint8_t)i }, obs = 0;
+      is_resp = 1;
+      if (!pdu || ++nq > 4) { printf("%sNOGEN", i > 4 ? " " : ""); continue; }
+      coap_add_token(pdu, 2, t);
+      coap_add_option(pdu, COAP_OPTION_OBSERVE, 0, &obs);
+      coap_add_option(pdu, COAP_OPTION_URI_PATH, 1, (const uint8_t *)"o");
+      a.sess->doing_first = 0;
+      if (coap_send(a.sess, pdu) == COAP_INVALID_MID || ncap < 1) { printf("%sNOGEN", i > 4 ? " " : ""); continue; }
+      a.sess->doing_first = 0;
+      n = cap_len[0];
+      memcpy(dg, cap_buf[0], n);
+      tok_len = dg[0] & 0x0f;
+      memcpy(tok, dg + 4, tok_len);
+      ncap = 0;
+      bsrv->p_osc_ctx->sender_context->seq = seq;
+      coap_lock_lock(bsrv, goto done);
+      coap_handle_dgram(bsrv, b_in, dg, n);
+      coap_lock_unlock(bsrv);
+      n = 0;
+      for (int k = 0; k < ncap; k++)
+        if (cap_sess[k]->context == bsrv && cap_len[k] > 4 && cap_buf[k][1] != 0) {
+          n = cap_len[k];
+          memcpy(dg, cap_buf[k], n);
+        }
+      if (!n) { printf("%sNOGEN", i > 4 ? " " : ""); continue; }
+    } else if (kind == 'N' || kind == 'T') {
+      is_resp = 1;
+      if (prev >= 0) {
+        n = msg_len[prev];
+        memcpy(dg, msg_buf[prev], n);
+      } else {
+        bsrv->p_osc_ctx->sender_context->seq = seq;
+        coap_resource_notify_observers(res_o, NULL);
+        coap_check_notify(bsrv);
+        /* with several registrations there is one notification per observer: take the first
+         * (it carries the Partial IV <seq>) */
+        for (int k = 0; k < ncap && !n; k++)
+          if (cap_sess[k]->context == bsrv && cap_len[k] > 4 && cap_buf[k][1] != 0) {
+            n = cap_len[k];
+            memcpy(dg, cap_buf[k], n);
+          }
+        if (!n) { printf("%sNOGEN", i > 4 ? " " : ""); continue; }
+        if (kind == 'T') dg[n - 1] ^= 0x01;
+        else if (i - 4 < MAXMSG && n <= sizeof(msg_buf[0])) {
+          memcpy(msg_buf[i - 4], dg, n);
+          msg_len[i - 4] = n;
+        }
+      }
+    } else if (kind == 'R' || kind == 'Z' || kind == 'W') {
+      int pl = kind == 'W' ? 0 : seq_len(seq);
+      is_resp = 1;
+      dg[n++] = 0x50 | (uint8_t)(kind == 'Z' ? 3 : tok_len);          /* NON */
+      dg[n++] = COAP_RESPONSE_CODE(204);
+      dg[n++] = 0x77; dg[n++] = (uint8_t)i;
+      if (kind == 'Z') { dg[n++] = 0xee; dg[n++] = 0xee; dg[n++] = (uint8_t)i; }
+      else { memcpy(dg + n, tok, tok_len); n += tok_len; }
+      if (kind == 'W') {
+        dg[n++] = 0x90;                                  /* empty OSCORE option */
+      } else {
+        dg[n++] = 0x90 | (uint8_t)(1 + pl);              /* option 9 (OSCORE) */
+        dg[n++] = (uint8_t)pl;
+        for (int k = 0; k < pl; k++) dg[n++] = (uint8_t)(seq >> (8 * (pl - 1 - k)));
+      }
+      dg[n++] = 0xff;
+      for (int k = 0; k < 13; k++) dg[n++] = (uint8_t)(0xa0 + k + i + (int)seq);
+    } else {
+      printf("%sNOGEN", i > 4 ? " " : "");
+      continue;
+    }
+    if (is_resp) {
+      ncap = 0;
+      rbefore = a_resp_calls;
+      coap_lock_lock(a.ctx, goto done);
+      coap_handle_dgram(a.ctx, a.sess, dg, n);
+      coap_lock_unlock(a.ctx);
+      snprintf(verdict, sizeof(verdict), a_resp_calls > rbefore ? "A" : "X");
+    }
+    printf("%s%s,%" PRIx64 ",%" PRIx64 ",%d", i > 4 ? " " : "", verdict, rc->last_seq,
+           rc->sliding_window, rc->initial_state);
+  }
+  if (vntok == 4) printf("-");
+  putchar('\n');
+done:
+  if (a_in) coap_session_release(a_in);
+  if (b_in) coap_session_release(b_in);
+  client_down(&a);
+  client_down(&b);
+  if (bsrv) coap_free_context(bsrv);
+}
+
 int main(void) {
   coap_startup();
   coap_set_log_level(getenv("VERIF_LOG") ? (coap_log_t)atoi(getenv("VERIF_LOG")) : COAP_LOG_EMERG);
@@ -642,6 +872,7 @@ int main(void) {
     else if (!strcmp(vtok[0], "rpd")) cmd_rpd();
     else if (!strcmp(vtok[0], "sst")) cmd_sst();
     else if (!strcmp(vtok[0], "rpe")) cmd_rpe();
+    else if (!strcmp(vtok[0], "rpx")) cmd_rpx();
     else printf("ERROR unknown command\n");
     fflush(stdout);
   }
